@@ -140,8 +140,9 @@ CLAIMED = {
              "Dictionary/QuotedTripleStore/SparqlDatabase and seeded random encode/decode/quoted-encode sequences, unions of populated "
              "databases (named and empty graphs, nested quoted triples, seeds, several entry points incl. encode_term_star) and "
              "fork/extend/merge scenarios are recorded; every returned identifier, decoding, snapshot of both maps and union result is "
-             "validated by the TLA+ trace specification, which computes the expected lexical datasets itself.",
-        design_ref="DESIGN.md section 5 (C15)",
+             "validated by the TLA+ trace specification, which computes the expected lexical datasets itself; a merge of dictionaries "
+             "that do not agree (outside merge's precondition) is still judged for the stability of every pair handed out earlier.",
+        design_ref="DESIGN.md section 5 (C15), 12.1",
         note="Trusted: TLC, Json module, recording harness (harness/src/c15.rs). A term is the string stored in the dictionary: the "
              "collapse of IRI/literal/datatype/language forms by encode_term_star is not judged (C13/C14). Strings without white space. "
              "Exhaustive only within the cfg constants (3 strings, <=2 quoted triples, <=2 quads per database). Identifier exhaustion: recorded "
